@@ -302,7 +302,15 @@ def normalize_result(case, res):
     return res
 
 
-fix_candidate = fix_eval_candidate
+def fix_candidate(cand, base):
+    if cand.get("k") == "rectarget":
+        from . import c07
+        ok = c07.wf_data(cand.get("from")) and isinstance(cand.get("from"), dict) and "m" in cand["from"] and cand.get("want") == base.get("want")
+        ok = ok and all(isinstance(m, dict) and c07.wf_data(m.get("b")) and m.get("opts") in [x.get("opts") for x in base.get("merges") or []]
+                        for m in cand.get("merges") or [])
+        ok = ok and cand.get("copts") == base.get("copts") and cand.get("uopts") == base.get("uopts")
+        return cand if ok else None
+    return fix_eval_candidate(cand, base)
 
 
 def nontrivial(case, impl):
@@ -311,3 +319,9 @@ def nontrivial(case, impl):
 
 def sig(case, impl):
     return c02.sig(case, impl)
+
+
+def check_facts(facts):
+    """the repairs this property relies on sit in two or more functions: see c07.check_calls"""
+    from . import c07
+    return c07.check_calls(facts)
